@@ -30,7 +30,7 @@ type val struct {
 	vals  []*val
 }
 
-var scalarPool = []string{"a", "b", "1", "x y", "true"}
+var scalarPool = []string{"a", "b", "1", "x y", "true", "null", "~"}
 var exprPool = []string{"${{ matrix.v }}", "${{ fromJSON(env.X) }}", "pre-${{ github.sha }}"}
 var objKeyPool = []string{"name", "m", "ver", "Name", "z"}
 var rowKeyPool = []string{"os", "ver", "arch", "OS", "node"}
@@ -736,6 +736,92 @@ func evalSource(src string) (m *actionlint.Matrix, impl []obs, want []obs, err e
 	return
 }
 
+// sameTree: the parsed value has the shape and the scalars of the generated one
+func sameTree(v *val, raw actionlint.RawYAMLValue) bool {
+	switch v.kind {
+	case 0:
+		s, ok := raw.(*actionlint.RawYAMLString)
+		return ok && s.Value == v.s
+	case 1:
+		a, ok := raw.(*actionlint.RawYAMLArray)
+		if !ok || len(a.Elems) != len(v.elems) {
+			return false
+		}
+		for i, e := range v.elems {
+			if !sameTree(e, a.Elems[i]) {
+				return false
+			}
+		}
+		return true
+	}
+	o, ok := raw.(*actionlint.RawYAMLObject)
+	if !ok || len(o.Props) != len(v.keys) {
+		return false
+	}
+	for i, k := range v.keys {
+		p, ok := o.Props[strings.ToLower(k)]
+		if !ok || !sameTree(v.vals[i], p) {
+			return false
+		}
+	}
+	return true
+}
+
+func fidelity(g *genMatrix, m *actionlint.Matrix) string {
+	if g.expr != "" || m == nil {
+		return ""
+	}
+	for _, r := range g.rows {
+		if r.expr != "" || len(r.vals) == 0 {
+			continue // (an empty row is a syntax error of the workflow)
+		}
+		row, ok := m.Rows[strings.ToLower(r.key)]
+		if !ok || len(row.Values) != len(r.vals) {
+			return "row " + r.key + " lost or its length changed"
+		}
+		for i, v := range r.vals {
+			if !sameTree(v, row.Values[i]) {
+				return fmt.Sprintf("row %s value %d (%s)", r.key, i, v.yaml())
+			}
+		}
+	}
+	combs := func(name string, gs []genComb, cs *actionlint.MatrixCombinations) string {
+		if cs == nil || cs.Expression != nil {
+			return ""
+		}
+		if len(cs.Combinations) != len(gs) {
+			return name + " length changed"
+		}
+		for i, gc := range gs {
+			if gc.expr != "" {
+				continue
+			}
+			c := cs.Combinations[i]
+			if len(c.Assigns) != len(gc.keys) {
+				return fmt.Sprintf("%s entry %d: number of keys changed", name, i)
+			}
+			for j, k := range gc.keys {
+				a, ok := c.Assigns[strings.ToLower(k)]
+				if !ok || !sameTree(gc.vals[j], a.Value) {
+					return fmt.Sprintf("%s entry %d key %s (%s)", name, i, k, gc.vals[j].yaml())
+				}
+			}
+		}
+		return ""
+	}
+	if g.hasInc && g.incExpr == "" {
+		if msg := combs("include", g.include, m.Include); msg != "" {
+			return msg
+		}
+	}
+	if g.hasExc && g.excExpr == "" {
+		if msg := combs("exclude", g.exclude, m.Exclude); msg != "" {
+			return msg
+		}
+	}
+	return ""
+}
+
 func main() {
 	seed := flag.Uint64("seed", 1, "PRNG seed")
 	n := flag.Int("n", 1000, "number of generated matrices")
@@ -762,7 +848,7 @@ func main() {
 	hx.Must(os.MkdirAll(*out, 0o755))
 	r := hx.NewRng(*seed)
 	sum := hx.NewSummary("C19")
-	sum.Rule = "random matrices (values nested to depth 3, objects 0-3 members, arrays 0-3, scalars from a pool of 5, near-copies by mutation, expressions at 10% in a third of the cases); non-trivial = the rule or the oracle reports at least one diagnostic; distinct = distinct workflow text"
+	sum.Rule = "random matrices (values nested to depth 3, objects 0-3 members, arrays 0-3, scalars from a pool of 7 incl. null, near-copies by mutation, expressions at 10% in a third of the cases); non-trivial = the rule or the oracle reports at least one diagnostic; distinct = distinct workflow text"
 	cases, err := os.Create(filepath.Join(*out, "cases.txt"))
 	hx.Must(err)
 	defer cases.Close()
@@ -800,6 +886,11 @@ func main() {
 			fmt.Fprintln(cases, term)
 			sb, _ := json.Marshal(map[string]interface{}{"workflow": src})
 			fmt.Fprintln(srcs, string(sb))
+		}
+		// oracle 0: the matrix the rule sees IS the matrix as written (every member, element and
+		// scalar of every value; keys lower-cased): the reference below works on the parsed tree
+		if msg := fidelity(gm, m); msg != "" {
+			sum.OracleFails = append(sum.OracleFails, failure{What: "the parsed matrix does not carry the values as written: " + msg, Key: "fidelity:" + msg, Workflow: src})
 		}
 		// oracle 1: verdicts demanded by the property text
 		if !sameObs(stripRef(impl), want) {
